@@ -221,6 +221,7 @@ fn worker(args: &[String]) -> i32 {
     let cap_s: f64 = arg(args, "--cap").and_then(|s| s.parse().ok()).unwrap_or(600.0);
     let want_digests = args.iter().any(|a| a == "--digests");
     let start = Instant::now();
+    let known = load_known();
     let mut st = Stats::default();
     let mut rep = ShardReport::default();
     let mut run = first;
@@ -270,6 +271,15 @@ fn worker(args: &[String]) -> i32 {
         }
         if let Some((v, repl)) = verdict {
             let failing = repl.unwrap_or(case);
+            // a listed open finding: counted, not minimised, and it does not end the shard early
+            let failing_text = serde_json::to_string(&failing).unwrap_or_default();
+            if let Some(k) = known.iter().find(|k| {
+                k.status == "open" && k.property == prop && v.oracle.starts_with(&k.oracle_prefix) && (k.replay_contains.is_empty() || failing_text.contains(&k.replay_contains.replace(' ', "")))
+            }) {
+                st.c.inc(&format!("known_finding.{}", k.what));
+                run += step;
+                continue;
+            }
             let (min_case, execs) = if v.oracle.starts_with("harness") {
                 (failing.clone(), 0)
             } else {
@@ -615,6 +625,11 @@ fn check(args: &[String]) -> i32 {
         println!("VIOLATION property={} replay={}", prop, v.replay);
         if exit == 0 {
             exit = 1;
+        }
+    }
+    for (k, n) in counters.0.iter() {
+        if let Some(what) = k.strip_prefix("known_finding.") {
+            *known_hits.entry(what.to_string()).or_insert(0) += *n;
         }
     }
     for (what, n) in &known_hits {
